@@ -2,7 +2,7 @@ SPECIFICATION Spec
 CONSTANTS
   MaxDocs = 3
   MaxFields = 3
-  Universes = {"plain", "blank", "affix", "inner"}
+  Universes = {"plain", "blank", "affix", "inner", "star"}
   Sanitiser = "verbatim"
 INVARIANT KeepsOnlyOwnFields
 INVARIANT AllowExceptPartition
